@@ -142,7 +142,7 @@ var RaiseKinds = []struct {
 	{"call-nonfn", 8}, {"member-nullish", 7}, {"unresolvable", 8}, {"array-length", 7}, {"number-format", NumberFormatVariants},
 	{"eval-syntax", 5}, {"instanceof-in", 6}, {"json-cycle", 4}, {"uri", 2}, {"object-api", 7},
 	{"throw-native", 7 * 2 * 5}, {"throw-renamed", 7 * 3}, {"throw-prim", 7}, {"throw-object", 6},
-	{"syntax", 28},
+	{"syntax", SyntaxVariants},
 }
 
 // receivers of the bad radix / bad precision calls: ordinary numbers, NaN, the infinities, both zeros,
@@ -366,46 +366,7 @@ func raiseOf(r Raise) raiseSpec {
 		return sp
 	case "syntax": // 15.1.2.1: SyntaxError from eval; parser.ErrorList from the API. Position: the offending token.
 		sp := raiseSpec{class: "SyntaxError", exact: true, stmt: true, syntax: true}
-		type sv struct {
-			pre   string // tokens before the offending token
-			bad   string // the offending token
-			post  string // tokens after it
-			glue  bool   // no line terminator between the last `pre` token and `bad` (otherwise ASI would repair it)
-			nl    bool   // a line terminator must follow `bad` (unterminated literal)
-			eof   bool
-			noRet bool
-		}
-		vs := []sv{
-			{pre: "var s1 =", bad: `"abc`, nl: true, post: ";"},
-			{pre: "tmp =", bad: `'a b`, nl: true, post: ";"},
-			{pre: "tmp = 1 +", bad: ")", post: ";"},
-			{pre: "tmp = 1 +", bad: "]", post: ";"},
-			{pre: "tmp = 1 +", bad: ";"},
-			{pre: "tmp = ( 1 ,", bad: "}", post: ";"},
-			{pre: "tmp = 3", bad: "4", post: ";", glue: true},
-			{pre: "tmp = n5", bad: `"s"`, post: ";", glue: true},
-			{pre: "tmp = n5", bad: "obj", post: ";", glue: true},
-			{pre: "tmp = obj", bad: "true", post: ";", glue: true},
-			{pre: "tmp = 1", bad: "@", post: "2 ;"},
-			{pre: "tmp =", bad: "#", post: ";"},
-			{bad: "break", post: ";"},
-			{bad: "continue", post: ";"},
-			{bad: "return", post: "5 ;", noRet: true},
-			{pre: "tmp =", bad: "/(/", post: ";"},
-			{pre: "tmp =", bad: "/a**/", post: ". test ( str ) ;"},
-			{pre: "tmp =", bad: "/[b-a]/", post: ";"},
-			{pre: "tmp =", bad: "/abc", nl: true, post: ";"},
-			{pre: "if ( ok ) {", bad: "noop", post: "( ) ;", eof: true},
-			// truncated programs: the error is at the end of the input
-			{pre: "tmp = ( 1", bad: "+", eof: true},
-			{pre: "tmp = [ 1", bad: ",", eof: true},
-			{pre: "noop ( 1", bad: ",", eof: true},
-			{pre: "tmp = 1", bad: "+", eof: true},
-			{pre: "function g1 ( )", bad: "{", eof: true},
-			{bad: "/* abc", eof: true},
-			{pre: "tmp = { a : 1", bad: ",", eof: true},
-			{pre: "tmp = ok", bad: "?", eof: true},
-		}
+		vs := syntaxForms
 		x := vs[v%len(vs)]
 		sp.eof, sp.noRet = x.eof, x.noRet
 		sp.openComment = strings.HasPrefix(x.bad, "/*")
@@ -421,6 +382,120 @@ func raiseOf(r Raise) raiseSpec {
 	}
 	panic("m19: unknown raise kind " + r.Kind)
 }
+
+// syntaxForm is one injected syntax error: tokens before the offending token, the offending token,
+// tokens after it.
+type syntaxForm struct {
+	pre   string // tokens before the offending token
+	bad   string // the offending token
+	post  string // tokens after it
+	glue  bool   // no line terminator between the last `pre` token and `bad` (otherwise ASI would repair it)
+	nl    bool   // a line terminator must follow `bad` (unterminated literal)
+	eof   bool
+	noRet bool
+}
+
+// Indices of the forms that are reported at the end of the input.
+const (
+	SyntaxEOFFirst = 19
+	SyntaxEOFLast  = 27
+)
+
+var syntaxForms = append([]syntaxForm{
+	{pre: "var s1 =", bad: `"abc`, nl: true, post: ";"},
+	{pre: "tmp =", bad: `'a b`, nl: true, post: ";"},
+	{pre: "tmp = 1 +", bad: ")", post: ";"},
+	{pre: "tmp = 1 +", bad: "]", post: ";"},
+	{pre: "tmp = 1 +", bad: ";"},
+	{pre: "tmp = ( 1 ,", bad: "}", post: ";"},
+	{pre: "tmp = 3", bad: "4", post: ";", glue: true},
+	{pre: "tmp = n5", bad: `"s"`, post: ";", glue: true},
+	{pre: "tmp = n5", bad: "obj", post: ";", glue: true},
+	{pre: "tmp = obj", bad: "true", post: ";", glue: true},
+	{pre: "tmp = 1", bad: "@", post: "2 ;"},
+	{pre: "tmp =", bad: "#", post: ";"},
+	{bad: "break", post: ";"},
+	{bad: "continue", post: ";"},
+	{bad: "return", post: "5 ;", noRet: true},
+	{pre: "tmp =", bad: "/(/", post: ";"},
+	{pre: "tmp =", bad: "/a**/", post: ". test ( str ) ;"},
+	{pre: "tmp =", bad: "/[b-a]/", post: ";"},
+	{pre: "tmp =", bad: "/abc", nl: true, post: ";"},
+	{pre: "if ( ok ) {", bad: "noop", post: "( ) ;", eof: true},
+	// truncated programs: the error is at the end of the input
+	{pre: "tmp = ( 1", bad: "+", eof: true},
+	{pre: "tmp = [ 1", bad: ",", eof: true},
+	{pre: "noop ( 1", bad: ",", eof: true},
+	{pre: "tmp = 1", bad: "+", eof: true},
+	{pre: "function g1 ( )", bad: "{", eof: true},
+	{bad: "/* abc", eof: true},
+	{pre: "tmp = { a : 1", bad: ",", eof: true},
+	{pre: "tmp = ok", bad: "?", eof: true},
+}, positionForms()...)
+
+// positionForms: one offending token in many grammatical positions, written "pre|bad|post"; a leading
+// "~" forbids a line terminator before the offending token. Every form has exactly one token at which
+// no ES5 production can continue (checked against the grammar by hand, and against a fully laid-out
+// enumeration on the unchanged tree). Not used, because otto reports a defensible other position or
+// accepts the text (C04's subject): `{get g(v){}}` (reported at the parenthesis), `break nolabel`
+// (reported at break), `try{} x` (reported at try), `{a:1 b:2}`, `{set s(){}}`, `f(1,)` (accepted).
+func positionForms() []syntaxForm {
+	src := []string{
+		// property-name position of object literals (first, middle, last, accessor name), rest of a property
+		"tmp = {|*|: 2 }", "tmp = { a : 1 ,|*|: 2 }", "tmp = { a : 1 , b : 2 ,|;|: 3 }", "tmp = { a : 1 ,|(|: 2 }", "tmp = {|,|a : 1 }",
+		"tmp = { a : 1 ,|,|b : 2 }", "tmp = { get|*|( ) { } }", "tmp = { set|=|( v ) { } }", "~tmp = { a|1|}", "tmp = { a :|}|;", "tmp = {|@|: 1 }",
+		"tmp = { get g ( )|;|{ } }",
+		// after `.`
+		"tmp = obj .|(|1 ) ;", "tmp = obj .|;|", `tmp = obj .|"s"|;`, "tmp = obj .|[|0 ] ;", "tmp = obj .|*|2 ;", "tmp = obj . k .|)|;", "tmp = obj .|@|;",
+		// parameter lists, function heads
+		"function g2 (|1|) { }", "function g2 ( a ,|)|{ }", "~function g2 ( a|b|) { }", "function g2 (|*|) { }", "function|(|) { }", "function g2|{|}",
+		"tmp = function ( a ,|,|b ) { } ;", "function g2 ( )|;|", "tmp = function ( )|;|", "function g2 ( ) {|)|}",
+		// var declarations
+		"var|5|= 1 ;", "var|=|1 ;", "var a1 =|,|b1 ;", "var a1 ,|;|", "~var a1|b1|;", "var|if|= 1 ;", "var a1 = 1 ,|2|;", "var|class|= 1 ;",
+		// switch / case clauses
+		"switch ( n5 ) { case|:|1 ; }", "switch ( n5 ) { case 1|;|}", "~switch ( n5 ) { default|1|; }", "switch ( n5 ) {|noop|( ) ; }", "~switch|n5|{ }",
+		"switch ( n5 ) { case 1 : break ; default : ;|default|: ; }", "switch ( n5 )|;|", "|case|1 : ;", "|default|: ;",
+		// try / catch parameter
+		"try { } catch (|1|) { }", "try { } catch|{|}", "try { } catch (|)|{ }", "try { } catch ( e1|,|e2 ) { }", "~try|noop|( ) ; catch ( e1 ) { }", "try { } finally|noop|( ) ;",
+		// labels
+		"lb1 :|lb1|: ;", "1|:|;",
+		// argument lists
+		"noop (|,|1 ) ;", "noop ( 1 ,|,|2 ) ;", "~noop ( 1|2|) ;", "noop ( 1|;|", "noop (|*|) ;",
+		// array literals
+		"~tmp = [ 1|2|] ;", "tmp = [ 1 ,|;|] ;", "tmp = [ , ,|*|] ;", "tmp = [ 1|:|2 ] ;",
+		// new
+		"tmp = new|;|", "tmp = new|*|2 ;", "tmp = new (|)|;", "tmp = new|.|x ;",
+		// unary and binary operands, conditional, comma, assignment
+		"tmp = !|;|", "tmp = typeof|)|;", "tmp = -|*|2 ;", "tmp = void|;|", "delete|;|",
+		"tmp = 1 &&|OROR|2 ;", "tmp = 1 <|>|2 ;", "tmp = 1 instanceof|;|", "tmp = ok ? 1|;|2", "tmp = ok ?|:|2 ;", "tmp = 1 ,|,|2 ;", "tmp =|=|1 ;", "tmp +=|;|",
+		"tmp = 1 +|#|;",
+		// for / while / do / if / with headers
+		"for ( ; ;|;|) { }", "for ( var i1 = 0 ; i1 < 1|)|{ }", "for (|)|{ }", "for ( var i1 in|)|{ }", "~for ( var i1|of|arr ) { }", "for|var|i1 ;", "while (|)|{ }", "~while|ok|{ }",
+		"do { }|(|ok ) ;", "if (|)|{ }", "~if|ok|{ }", "with (|)|{ }", "if ( ok ) { } else|else|{ }",
+		// parentheses, brackets, throw
+		"tmp = (|)|;", "tmp = ( 1 ,|)|;", "throw|;|", "tmp = obj [|]|;", "tmp = obj [ 1|;|",
+		// a token that cannot start a statement
+		"|in|obj ;", "|instanceof|obj ;", "|)|;", "|]|;", "|:|;", "|,|1 ;", "|.|x ;", "|=|1 ;", "|*|2 ;", "|?|1 : 2 ;",
+		"|enum|x1 ;", "tmp =|enum|;", "|class|X1 { }",
+	}
+	var out []syntaxForm
+	for _, c := range src {
+		f := syntaxForm{}
+		if strings.HasPrefix(c, "~") {
+			f.glue, c = true, c[1:]
+		}
+		p := strings.Split(c, "|")
+		if len(p) != 3 {
+			panic("m19: bad syntax form " + c)
+		}
+		f.pre, f.bad, f.post = p[0], strings.ReplaceAll(p[1], "OROR", "||"), p[2]
+		out = append(out, f)
+	}
+	return out
+}
+
+// SyntaxVariants is the number of injected syntax errors.
+var SyntaxVariants = len(syntaxForms)
 
 // ---- rendering -------------------------------------------------------------------------------------
 
